@@ -1,5 +1,7 @@
 import NxProofs.MiscMii
 import NxProofs.MiscCrc
+import NxProofs.MiscBase64
+import NxProofs.MiscAuth
 /-!
 # C19 — request authentication codes and auxiliary codecs
 
@@ -73,7 +75,66 @@ theorem mii_name_roundtrip (n : Nat) (cs : List Nat) (h : (Val.l cs).InRange (.w
     ∃ bs, encField (.wstr n) (.l cs) = .ok bs ∧ bs.length = 16 * n ∧ decField (.wstr n) bs = .l cs :=
   field_roundtrip (.wstr n) (.l cs) h
 
+/-! ## base64 family -/
+
+/-- `base64.b64decode(base64.b64encode(d)) == d` with CPython's *lenient* decoder, for every byte string -/
+theorem b64_roundtrip (d : Bytes) : a2b (b2a d) = .ok d := a2b_b2a d
+
+/-- url-safe alphabet (`-_`), padded -/
+theorem b64url_roundtrip (d : Bytes) : b64urlDecode (b64urlEncode d) = .ok d := Nx.Crypto.b64url_roundtrip d
+
+/-- url-safe **unpadded** form used for dauth `mac` / aauth `cert`, `cert_key`, `gvt`, decoded the way
+    `device_token` decodes the challenge data (re-pad to a multiple of 4, lenient decode) -/
+theorem b64url_unpadded_roundtrip (d : Bytes) : b64urlDecodeRepad (b64urlEncodeNoPad d) = .ok d :=
+  b64url_nopad_roundtrip d
+
+/-- the 3DS variant (`+/=` → `.-*`): `nasc.b64decode(nasc.b64encode(d)) == d` -/
+theorem nasc_b64_roundtrip (d : Bytes) : nascDecode (nascEncode d) = .ok d := nascDecode_nascEncode d
+
+/-- … whose output never contains `+`, `/`, `=` -/
+theorem nasc_b64_form_safe (d : Bytes) : ∀ c ∈ nascEncode d, c ≠ 43 ∧ c ≠ 47 ∧ c ≠ 61 := nascEncode_safe d
+
+/-- `nasc.decode_form(nasc.encode_form(f)) == f` for every form with byte-string values -/
+theorem nasc_form_roundtrip (f : List (Bytes × Bytes)) : nascDecodeForm (nascEncodeForm f) = .ok f :=
+  nascForm_roundtrip f
+
+/-! ## calibration data, Hpp -/
+
+/-- `ProdInfo.check` passes iff the region is present and its last two bytes are the little-endian CRC of the rest -/
+theorem prodinfo_check_def (data : Bytes) (offset size : Nat) (h2 : 2 ≤ offset + size) :
+    prodCheck data offset size = .ok () ↔
+      offset + size ≤ data.length ∧
+      prodCrc16 ((data.take (offset + size - 2)).drop offset) = rdLE data (offset + size - 2) 2 :=
+  prodCheck_ok_iff data offset size h2
+
+/-- a rejected region is a ValueError (bad CRC) or a struct.error (truncated file) -/
+theorem prodinfo_check_errors (data : Bytes) (offset size : Nat) (e : Err)
+    (h : prodCheck data offset size = .error e) : e = .value ∨ e = .struct := prodCheck_err data offset size e h
+
+/-- an Hpp success response is accepted only if it carries the size of what follows, the call id of the request
+    and `method | 0x8000`; the body handed back is what follows that header -/
+theorem hpp_response_accepted (callId method : Nat) (resp body : Bytes)
+    (h : hppValidate callId method resp = .body body) :
+    ∃ size s1 flag s2 s3 s4, rdU32 resp = .ok (size, s1) ∧ size = s1.length ∧ rdU8 s1 = .ok (flag, s2) ∧ flag ≠ 0 ∧
+      rdU32 s2 = .ok (callId, s3) ∧ rdU32 s3 = .ok (method ||| 0x8000, s4) ∧ body = s4 :=
+  hppValidate_body callId method resp body h
+
+/-
+NOT theorems (stated here so the gap is visible): "`dauthMac`, `aauthEnvelope`, `hppSignatures`, `nnasHash`,
+`prodCrc16` agree with an independent reference on every input". In Lean these functions ARE the independent
+reference implementations (AES/CMAC/SHA-256/OAEP written from FIPS-197, RFC 4493, FIPS 180-4, RFC 8017,
+validated on the published vectors and on the three request snapshots of tests/switch/test_dauth.py in the
+driver self-test); their agreement with the Python library is established differentially by
+harness/corr_C19.py on generated inputs (sampled, not exhaustive). `prodCrc16 = refCrc16Arc 0x55AA` (table
+form = bit-serial CRC-16/ARC) is likewise checked differentially, not proved.
+-/
+
 /-! non-vacuity -/
+example : a2b (b2a [0xFB, 0xFF]) = .ok [0xFB, 0xFF] := by decide +kernel
+example : nascEncode [0xFB, 0xFF] = [46, 45, 56, 42] := by decide +kernel      -- ".-8*"
+example : b64urlEncodeNoPad [0xFB, 0xFF] = [45, 95, 56] := by decide +kernel   -- "-_8"
+example : prodCheck [1, 2, 3, 15, 209] 0 5 = .ok () := by decide +kernel
+example : prodCheck [1, 2, 3, 15, 208] 0 5 = .error .value := by decide +kernel
 example : ValsInRange [⟨"a", .bits 4⟩, ⟨"n", .wstr 3⟩, ⟨"f", .flagBits 5⟩] [.n 15, .l [0xFFFF, 0xD800], .n 1] := by decide
 example : (Val.l [0x3042, 1, 0xFFFF]).InRange (.wstr 10) := by decide
 example : ¬ (Val.l [65, 0, 66]).InRange (.wstr 10) := by decide
